@@ -112,24 +112,36 @@ pub fn run_msgs(msgs: &[M]) -> String {
         strs.push(format!("{}:{}:{}:{}", m.index, k, vis as u8, same as u8));
     }
     let r = lcs_r.read().unwrap();
+    let canon = |k: &u32| ids.iter().position(|x| x == k).map_or(0, |p| p + 1);
     let mut t: Vec<String> = r
         .iter()
         .map(|(k, v)| {
             let l = v.get_one().unwrap();
             let e = l.ecu.as_u32le().to_le_bytes()[3].wrapping_sub(b'0');
-            format!(
-                "{},{},{},{},{},{}",
-                ids.iter().position(|x| x == k).map_or(0, |p| p + 1),
-                e,
-                l.nr_msgs,
-                l.start_time,
-                l.end_time(),
-                l.is_resume() as u8
-            )
+            format!("{},{},{},{},{},{}", canon(k), e, l.nr_msgs, l.start_time, l.end_time(), l.is_resume() as u8)
         })
         .collect();
     t.sort();
-    format!("{} | {}", strs.join(" "), t.join(" "))
+    // the listing shown to users (C07): canonical id, start, relative raw id of the lifecycle it resumes, own relative raw id
+    // (relative raw ids keep the order of the real ids, which the sort key uses)
+    let min_id = r.iter().map(|(k, _)| *k).min().unwrap_or(1);
+    let listing = match std::panic::catch_unwind(std::panic::AssertUnwindSafe(|| {
+        get_sorted_lifecycles_as_vec(&r)
+            .iter()
+            .map(|l| {
+                #[cfg(adlt_verif)]
+                let res = l.resume_lc_id().map_or(0, |i| if i >= min_id { i - min_id + 1 } else { 999_999 });
+                #[cfg(not(adlt_verif))]
+                let res = 0;
+                format!("{},{},{},{}", canon(&l.id()), l.start_time, res, l.id() - min_id + 1)
+            })
+            .collect::<Vec<_>>()
+            .join(" ")
+    })) {
+        Ok(s) => s,
+        Err(_) => "PANIC".to_string(),
+    };
+    format!("{} | {} | {}", strs.join(" "), t.join(" "), listing)
 }
 
 const S: u64 = 1_700_000_000_000_000;
